@@ -238,26 +238,29 @@ def main():
         witness = None
         if model_ok and prop.get("scripts"):
             try:
-                d, cexe = run.lib(DEFAULT_CFG)
-                budget = 6 if a.tier == "quick" else 40
+                budget = 4 if a.tier == "quick" else 30
+                cfgs_s = prop["configs"]("thorough")
                 for k in range(budget):
-                    for be in [b for b in prop["backends"]("thorough") if b in DEFAULT_CFG.backends()]:
-                        for name, body in prop["scripts"](Rng(rng.next()), "thorough" if k else a.tier, stats):
-                            lines = header(DEFAULT_CFG.tag(), sizes_line, backend_probes(be)) + body
-                            oc, _, _ = vlib.run_driver(cexe, "\n".join(lines) + "\n", prop.get("env", {}))
-                            osp, _, _ = vlib.run_driver(spec, "\n".join(lines) + "\n")
-                            mm = compare(lines, oc, osp, ignore_undef=True, heap_prefix=True)
-                            if mm is not None:
-                                def fs(ls, base_undef=[None]):
-                                    o1, rc1, _ = vlib.run_driver(cexe, "\n".join(ls) + "\n", prop.get("env", {}))
-                                    o2, _, _ = vlib.run_driver(spec, "\n".join(ls) + "\n")
-                                    und = sum(1 for x in o2 if x.strip() == "undef")
-                                    if base_undef[0] is None: base_undef[0] = und
-                                    if rc1 != 0 or und > base_undef[0]: return False
-                                    return compare(ls, o1, o2, ignore_undef=True, heap_prefix=True) is not None
-                                small = shrink(lines[:mm[0] + 1], nhdr, fs)
-                                witness = (small, "backend=%s op=%r impl=%s spec=%s" % (be, mm[1][:80], mm[2][:60], mm[3][:60]))
-                                break
+                    for cfg_s in cfgs_s:
+                        d, cexe = run.lib(cfg_s)
+                        for be in [b for b in prop["backends"]("thorough") if b in cfg_s.backends()]:
+                            for name, body in prop["scripts"](Rng(rng.next()), "thorough" if k else a.tier, stats):
+                                lines = header(cfg_s.tag(), sizes_line, backend_probes(be)) + body
+                                oc, _, _ = vlib.run_driver(cexe, "\n".join(lines) + "\n", prop.get("env", {}))
+                                osp, _, _ = vlib.run_driver(spec, "\n".join(lines) + "\n")
+                                mm = compare(lines, oc, osp, ignore_undef=True, heap_prefix=True)
+                                if mm is not None:
+                                    def fs(ls, base_undef=[None], cexe=cexe):
+                                        o1, rc1, _ = vlib.run_driver(cexe, "\n".join(ls) + "\n", prop.get("env", {}))
+                                        o2, _, _ = vlib.run_driver(spec, "\n".join(ls) + "\n")
+                                        und = sum(1 for x in o2 if x.strip() == "undef")
+                                        if base_undef[0] is None: base_undef[0] = und
+                                        if rc1 != 0 or und > base_undef[0]: return False
+                                        return compare(ls, o1, o2, ignore_undef=True, heap_prefix=True) is not None
+                                    small = shrink(lines[:mm[0] + 1], nhdr, fs)
+                                    witness = (small, "config=%s backend=%s op=%r impl=%s spec=%s" % (cfg_s.name, be, mm[1][:80], mm[2][:60], mm[3][:60]))
+                                    break
+                            if witness: break
                         if witness: break
                     if witness: break
             except RuntimeError as ex:
